@@ -3,3 +3,4 @@ pub mod sched;
 pub mod handlers;
 pub mod enc;
 pub mod input;
+pub mod doc;
